@@ -29,7 +29,7 @@ def get_alias(ctx):
 def entry_points(ctx, qual):
     """Public functions that (transitively) call ``qual``."""
     callers = {}
-    for f in ctx.program.all_funcs():
+    for f in ctx.program.all_funcs(include_new=True):
         s = ctx.S.get(f.qual)
         for c in s.calls():
             if c.fn is not None and c.fn.op in ("func", "localfunc"):
@@ -50,26 +50,44 @@ def entry_points(ctx, qual):
 
 
 def rule_nomut(ctx):
+    """No public function can write an object its caller owns - directly or through any chain of repo callees (MOD
+    fixpoint).  A private helper that writes into its own parameter is judged at its public callers: it is a violation
+    only where a caller-owned object can reach that parameter (a fresh local array may be filled in place)."""
     A = get_alias(ctx)
-    for f in ctx.program.all_funcs():
+    A.solve() if not getattr(A, "rounds", 0) else None
+    for f in ctx.program.all_funcs(include_new=True):
         direct = A.direct_mutations(f)
         params = {}
         for m, roots in direct:
             for r in roots:
                 if r[0] == "p":
                     params.setdefault(r[1], m)
-        if not params:
+        is_public = getattr(f, "public", True) and f.parent is None
+        if is_public:
+            # also what reaches this function's parameters through callees
+            for r, wit in sorted(A.mod.get(f.qual, {}).items(), key=lambda kv: str(kv[0])):
+                if r[0] == "p" and r[1] not in params and wit[0] == "call":
+                    params.setdefault(r[1], wit[1])
+        if not params or not is_public:
             nsites = len(ctx.S.get(f.qual).by_kind("mutate"))
-            yield ob("C15.NOMUT", f, "%s:params" % f.qual, True, "no mutation site (of %d) can write a caller-owned object" % nsites)
+            note = "no mutation site (of %d) can write a caller-owned object" % nsites
+            if params and not is_public:
+                note = "private helper fills its own argument(s) %s in place; judged at the public callers (MOD propagation)" % sorted(params)
+            yield ob("C15.NOMUT", f, "%s:params" % f.qual, True, note)
             continue
         for p, m in sorted(params.items()):
             eps = entry_points(ctx, f.qual)
+            how = getattr(m, "how", None)
+            if how is None:
+                what = "%s passes the caller's %r to %s, which writes it in place" % (f.qual, p, m.d.get("callee"))
+            else:
+                what = "%s writes the caller's %r in place (%s on %s)" % (f.qual, p, how, tm.show(m.old, 4))
             yield ob(
                 "C15.NOMUT",
                 f,
                 "%s:%s" % (f.qual, p),
                 False,
-                "%s writes the caller's %r in place (%s on %s); reachable from public %s" % (f.qual, p, m.how, tm.show(m.old, 4), ", ".join(eps[:8])),
+                "%s; reachable from public %s" % (what, ", ".join(eps[:8])),
                 node=m.node,
             )
     # propagation through calls whose callee writes a parameter that is not itself reported
@@ -102,7 +120,7 @@ def _covers(rels):
 
 
 def rule_emptyfill(ctx):
-    for f in ctx.program.all_funcs():
+    for f in ctx.program.all_funcs(include_new=True):
         s = ctx.S.get(f.qual)
         # buffers: names whose mutated object originates from np.empty
         stores = {}
@@ -143,7 +161,7 @@ MUTABLE_DEFAULT = (ast.List, ast.Dict, ast.Set, ast.ListComp, ast.DictComp, ast.
 
 def rule_globalstate(ctx):
     A = get_alias(ctx)
-    for f in ctx.program.all_funcs():
+    for f in ctx.program.all_funcs(include_new=True):
         s = ctx.S.get(f.qual)
         probs = []
         node = None
@@ -183,7 +201,7 @@ IO_ALLOWED = {"io"}  # the loaders open files by design
 
 
 def rule_nondet(ctx):
-    for f in ctx.program.all_funcs():
+    for f in ctx.program.all_funcs(include_new=True):
         s = ctx.S.get(f.qual)
         probs = []
         node = None
